@@ -259,6 +259,7 @@ def inspect_page(stem: str, src: pathlib.Path, page: str, rec: Recorder) -> list
     # pylint: disable=too-many-locals,too-many-branches
     import sympy
     from symplyphysics.core.dimensions import print_dimension
+    from symplyphysics.core.symbols.symbols import DimensionSymbol
     from symplyphysics.docs.printer_code import code_str
     from symplyphysics.docs.printer_latex import latex_str
     out: list[tuple[str, str]] = []
@@ -308,6 +309,12 @@ def inspect_page(stem: str, src: pathlib.Path, page: str, rec: Recorder) -> list
                 elif status == "unparsed":
                     rec.notes.setdefault("unparsed_formulas", []).append(f"{stem}:{name}:{mode}: {detail[:90]}")
         tr = trailer(block)
+        if tr is None and isinstance(attr, (sympy.Symbol, DimensionSymbol)) and hasattr(attr, "dimension"):
+            # a documented SYMBOL (a named sympy symbol carrying a dimension: Symbol, IndexedSymbol, Quantity, the Symbolic
+            # wrappers Average / ExactDifferential / FiniteDifference ...) without its Symbol / Latex / Dimension rows
+            rec.count("symbol-table-missing")
+            out.append((f"symbol-table-missing:{stem}:{name}", f"page {stem}: the documented symbol {name} "
+                f"({type(attr).__name__}) is listed without its code name, LaTeX name and dimension"))
         if tr is not None and hasattr(attr, "dimension"):
             try:
                 want = {"code": code_str(attr), "latex": latex_str(attr), "dimension": print_dimension(attr.dimension)}
